@@ -279,7 +279,7 @@ def replay(case):
     common.bind_repo()
     acc = Acc()
     layer = case.get('layer')
-    if layer in ('e2e-file', 'e2e-molecule'):
+    if str(layer).startswith('e2e'):
         from props import c09_e2e
         return c09_e2e.replay(case)
     if layer == 'mean':
